@@ -337,6 +337,11 @@ def run_c17_part(ctx):
     sid += 1
     scs.append(mk(sid, "migrate-unconfigured", "migrate", [{"a": "Probe", "tag": 90}, call("c1", 11),
                {"a": "AnswerError", "tag": 11, "code": 303, "text": "PHONE_MIGRATE_9", "what": "anyerror"}, {"a": "Await", "c": "c1"}, {"a": "Settle"}], dc={"dc2": 2}))
+    # PHONE_MIGRATE without a usable number is an error like any other: returned, never a crash
+    for text in ("PHONE_MIGRATE_X", "PHONE_MIGRATE_", "PHONE_MIGRATE_abc", "PHONE_MIGRATE_%d", "PHONE_MIGRATE_99999999999999999999"):
+        sid += 1
+        scs.append(mk(sid, "migrate-text-" + text, "migrate", [{"a": "Probe", "tag": 90}, call("c1", 11),
+                   {"a": "AnswerError", "tag": 11, "code": 303, "text": text}, {"a": "Await", "c": "c1"}, {"a": "Probe", "tag": 91}, {"a": "Settle"}], dc={"dc2": 2}))
     st = judge(ctx, scs, K_RESULT | K_LIVE | K_CONNECT | {"rejected-request-not-resent", "accepted-request-resent"}, "c17")
     return {"histories": len(scs), "evaluations": st["events"], "coverage": {"end_to_end": st}}
 
